@@ -249,6 +249,12 @@ def _same_violation(res, want):
     for v in res["violations"]:
         if v["class"] == want["class"] and v["signature"] == want["signature"]:
             return v
+    if want["class"] == "harness-crash" and res["violations"]:
+        # memory corruption shows up as a crash in one process and as a wrong answer in the next:
+        # any violation on the same case confirms it
+        v = dict(res["violations"][0])
+        v["message"] = "(crashed in the first execution) " + v["message"]
+        return dict(v, **{"class": "harness-crash", "signature": want["signature"]})
     return None
 
 
@@ -393,6 +399,29 @@ def run_check(engine, prop, tier, seed, jobs, cases=None, budget_s=None, quiet=F
 
     run_digest = digest(sorted(digests))
 
+    # regression corpus: minimised cases of repaired defects and of seeded changes; each must hold on this tree
+    regress_dir = os.path.join(VERIF, "regress", prop)
+    regress_files = sorted(f for f in os.listdir(regress_dir) if f.endswith(".json")) if os.path.isdir(regress_dir) else []
+    if regress_files:
+        bodies = []
+        for f in regress_files:
+            with open(os.path.join(regress_dir, f)) as fh:
+                bodies.append(json.load(fh))
+        rres = forkmap(lambda b: engine.run(prop, b["case"]), bodies, jobs, timeout=600)
+        for f, b, (st, val) in zip(regress_files, bodies, rres):
+            stats.inc("regression_cases_replayed")
+            if st == "ok":
+                digests.append(("regress:" + f, val["log_digest"]))
+                for v in val["violations"][:1]:
+                    found.append({"index": -1, "case": b["case"], "violation": v})
+                    stats.inc("regression_cases_failing")
+            elif st in ("crash", "timeout"):
+                found.append({"index": -1, "case": b["case"], "violation": violation(
+                    "harness-crash", "whatshap code %s while executing regression case %s: %s" % (st, f, val), "crash")})
+            else:
+                harness_errors.append("regression case %s raised in the harness:\n%s" % (f, val))
+        run_digest = digest(sorted(digests, key=lambda t: str(t[0])))
+
     # group, minimise, replay
     groups = {}
     for f in found:
@@ -501,7 +530,7 @@ def run_replay(engine, path):
     if st == "exc":
         print("replay raised in harness:\n" + val)
         return 2
-    v = _same_violation(val, want)
+    v = _same_violation(val, dict(want, **{"class": body["class"]}))
     if v:
         print("REPRODUCED property=%s class=%s signature=%s\n  %s" % (prop, v["class"], v["signature"], v["message"]))
         print("log_digest=%s" % val["log_digest"])
